@@ -16,9 +16,41 @@ import tv
 _OBJ = {}
 
 
+def staged_call(variant):
+    """The same analysis through the PUBLIC STAGE FUNCTIONS, as a user composing them would: the shape table the user holds carries its own
+    row labels (variant of project.relabel: a window of a longer table, a late row dropped, descending labels) - a table is a sequence of rows
+    in the specification, so every stage is judged by the same clauses as inside compute_features."""
+    import pandas as pd
+    import project as pj
+
+    def call(sig, fs, f_range, **o):
+        from bycycle.features import compute_shape_features, compute_burst_features
+        from bycycle.burst import detect_bursts_cycles, detect_bursts_amp
+        from bycycle.utils import drop_samples_df
+        method = o.get('burst_method', 'cycles')
+        kw = {} if o.get('find_extrema_kwargs') is None else {'find_extrema_kwargs': o['find_extrema_kwargs']}
+        shp = pj.relabel(compute_shape_features(sig, fs, f_range, center_extrema=o.get('center_extrema', 'peak'), **kw), variant)
+        tk, bk = dict(o.get('threshold_kwargs') or {}), dict(o.get('burst_kwargs') or {})
+        if method == 'amp':                # the documented plumbing of the two option sets, done by the user
+            bk['fs'], bk['f_range'] = fs, f_range
+            if 'min_n_cycles' not in bk:
+                bk['min_n_cycles'] = tk.get('min_n_cycles', 3)
+            else:
+                tk['min_n_cycles'] = bk['min_n_cycles']
+        bf = compute_burst_features(shp, sig, burst_method=method, burst_kwargs=bk if method == 'amp' else None)
+        if len(bf) != len(shp):
+            raise AssertionError('compute_burst_features returned %d rows for %d cycles' % (len(bf), len(shp)))
+        df = pd.concat((bf.reset_index(drop=True), shp.reset_index(drop=True)), axis=1).set_axis(shp.index, axis=0)     # positional, labels kept
+        df = detect_bursts_cycles(df, **tk) if method == 'cycles' else detect_bursts_amp(df, **tk)
+        return df if o.get('return_samples', True) else drop_samples_df(df)
+    return call
+
+
 def _rec_one(args):
     case, via_object = args
     call = None
+    if not via_object and case.get('k', 0) % 5 == 2:
+        call = staged_call(case['k'] // 5)
     repeat = 2 if case.get('k', 0) % 3 == 0 else 1
     if via_object:
         _OBJ.clear()
@@ -39,6 +71,8 @@ def _rec_one(args):
 
 def record_all(cases, via_object_every=0, procs=None):
     jobs = [(c, bool(via_object_every and i % via_object_every == via_object_every - 1)) for i, c in enumerate(cases)]
+    for c, vo in jobs:
+        c['via_object'] = vo
     if len(jobs) < 40:
         return [_rec_one(j) for j in jobs]
     with Pool(procs or min(16, os.cpu_count() or 4)) as p:
@@ -56,7 +90,7 @@ def case_brief(case, rec):
 
 def replay_payload(case):
     return {'kind': 'pipeline', 'q': [int(x) for x in case['q']], 'e': case['e'], 'fs': case['fs'], 'f_range': list(case['f_range']),
-            'opts': case['opts'], 'sig_kind': case['kind']}
+            'opts': case['opts'], 'sig_kind': case['kind'], 'k': int(case.get('k', 0)), 'via_object': bool(case.get('via_object', False))}
 
 
 def case_from_payload(p):
@@ -65,12 +99,13 @@ def case_from_payload(p):
     if opts.get('burst_kwargs') and 'amp_threshes' in opts['burst_kwargs']:
         opts['burst_kwargs']['amp_threshes'] = tuple(opts['burst_kwargs']['amp_threshes'])
     return {'q': q, 'e': p['e'], 'sig': q.astype(float) * (2.0 ** p['e']), 'fs': p['fs'], 'f_range': tuple(p['f_range']),
-            'kind': p.get('sig_kind', ''), 'opts': opts, 'k': 0}
+            'kind': p.get('sig_kind', ''), 'opts': opts, 'k': int(p.get('k', 0)), 'via_object': bool(p.get('via_object', False))}
 
 
 def run_corpus(ctx, n_cases, prefixes, seed_offset=0, kinds=None, max_len=900, via_object_every=0, fs_bands=None,
-               label='G', mutate_opts=None):
-    cases = gen.corpus(ctx.seed * 1000 + seed_offset, n_cases, max_len=max_len, kinds=kinds, fs_bands=fs_bands)
+               label='G', mutate_opts=None, cases=None):
+    if cases is None:
+        cases = gen.corpus(ctx.seed * 1000 + seed_offset, n_cases, max_len=max_len, kinds=kinds, fs_bands=fs_bands)
     if mutate_opts:
         for i, c in enumerate(cases):
             mutate_opts(i, c)
@@ -103,9 +138,35 @@ def run_corpus(ctx, n_cases, prefixes, seed_offset=0, kinds=None, max_len=900, v
     return cases, recs, verdicts
 
 
+LONG_CYCLE_BANDS = [(1000, (4, 8)), (1024, (3, 6)), (2000, (8, 12)), (1000, (2, 5))]      # >= 128 samples per cycle
+LONG_RECORDING_BANDS = [(1000, (13, 30)), (500, (8, 12)), (1024, (8, 12))]
+
+
+def run_large(ctx, prefixes, seed_offset, n_long_cycles, n_long_recordings, mutate_opts=None, kinds=None):
+    """Beyond small scopes: cycles of more than 128 / 256 samples (counts per cycle outgrow 8-bit integers), and recordings of more than
+    2**15 / 2**16 samples with hundreds to thousands of cycles (sample indices and row counts outgrow 16-bit integers; tables whose positions
+    run into the thousands).  Same recording, same Trace_Pipeline clauses - only the size of the structures differs."""
+    rng = np.random.default_rng(ctx.seed * 1000 + 500 + seed_offset)
+    kinds = kinds or ['sine_bursts', 'asym', 'powerlaw_osc', 'two_osc', 'quantised']
+    cases = []
+    for i in range(n_long_cycles + n_long_recordings):
+        long_rec = i >= n_long_cycles
+        fs, fr = (LONG_RECORDING_BANDS if long_rec else LONG_CYCLE_BANDS)[int(rng.integers(0, 3 if long_rec else 4))]
+        n = int(rng.choice([33500, 40000, 66500])) if long_rec else int(rng.integers(9, 14) * fs / fr[0])
+        kind = kinds[int(rng.integers(0, len(kinds)))]
+        k = int(rng.integers(0, 1000))
+        opts = gen.option_set(rng, fs, fr, k)
+        if (opts.get('find_extrema_kwargs') or {}).get('boundary', 0) > fs // 4:
+            opts['find_extrema_kwargs']['boundary'] = 5
+        x = gen.waveform(rng, kind, n, fs, fr)
+        q, e = gen.to_grid(rng, x, kind)
+        cases.append({'q': q, 'e': e, 'sig': q.astype(float) * (2.0 ** e), 'fs': fs, 'f_range': fr, 'kind': kind, 'opts': opts, 'k': k})
+    return run_corpus(ctx, len(cases), prefixes, mutate_opts=mutate_opts, label='large', cases=cases)
+
+
 def replay_pipeline(ctx, payload, prefixes):
     case = case_from_payload(payload)
-    rec, _ = record.record_compute_features(case)
+    rec = _rec_one((case, case.get('via_object', False)))        # the same call form (object / staged functions / repeated call) as when it was found
     verdicts = tv.validate(ctx, 'Trace_Pipeline', [rec], jvms=1)
     for f in verdicts[0]:
         if any(f.startswith(p) for p in prefixes):
